@@ -1,6 +1,7 @@
 import Oracle.Proto
 import InfluxQL.Model.Duration
 import InfluxQL.Model.Scanner
+import InfluxQL.Model.Quote
 open InfluxQL Oracle
 
 def durErrMsg : DurErr → List Char
@@ -42,6 +43,18 @@ def handle (stream : String) (args : List String) : String :=
     match decStr a with
     | none => "bad-arg"
     | some s => runScanOps (if ops = "-" then [] else ops.toList) s
+  | "quote.str", [a] =>
+    match decStr a with
+    | none => "bad-arg"
+    | some s => encStr (quoteString s)
+  | "quote.needs", [a] =>
+    match decStr a with
+    | none => "bad-arg"
+    | some s => toString (identNeedsQuotes s)
+  | "quote.ident", segs =>
+    match segs.mapM decStr with
+    | none => "bad-arg"
+    | some ss => encStr (quoteIdent ss)
   | _, _ => "bad-op"
 
 partial def loop (hin : IO.FS.Stream) (hout : IO.FS.Stream) : IO Unit := do
